@@ -60,6 +60,11 @@ func checkC18(cx *Ctx, r *Report) {
 		if seenH[rt.Handler] {
 			continue
 		}
+		switch k {
+		case kMeta, kCert, kCallback, "provider.healthHandler", "provider.readyHandler$1":
+		default:
+			continue // a wrapper around the routed handlers (metrics, logging): it replies through the handler it wraps
+		}
 		seenH[rt.Handler] = true
 		cx.checkEmitExactlyOne(r, "R-EMIT", "handler:"+k, rt.Handler)
 	}
